@@ -205,7 +205,7 @@ Proof.
   destruct (N.eqb k o) eqn:E; [apply N.eqb_eq in E; auto | intros H; right; apply IH, H].
 Qed.
 
-Lemma step_key f flen c o r : step f flen c o = Some r -> In o (keys f).
+Lemma step_key f flen o r : step f flen o = Some r -> In o (keys f).
 Proof.
   unfold step, parse_xref_section. destruct (find f o) as [[it nx]|] eqn:F.
   - intros _. eapply find_some_key, F.
@@ -249,28 +249,28 @@ Proof.
   unfold keys. rewrite map_length. lia.
 Qed.
 
-Theorem walk_no_fuel fuel f flen c cs ids xs root next :
-  remaining cs f < fuel -> walk fuel f flen c cs ids xs root next <> WFuel.
+Theorem walk_no_fuel fuel f flen cs ids xs root next :
+  remaining cs f < fuel -> walk fuel f flen cs ids xs root next <> WFuel.
 Proof.
-  revert c cs ids xs root next. induction fuel as [|n IH]; intros c cs ids xs root next H; [lia|].
+  revert cs ids xs root next. induction fuel as [|n IH]; intros cs ids xs root next H; [lia|].
   cbn [walk]. destruct (mem_N next cs) eqn:M; [discriminate|].
   destruct (negb (next <? flen)%N); [discriminate|].
-  destruct (step f flen c next) as [[c2 [[ents rt] prev]]|] eqn:St; [|discriminate].
+  destruct (step f flen next) as [[[ents rt] prev]|] eqn:St; [|discriminate].
   destruct (match root with Some _ => root | None => rt end); [|discriminate].
   destruct (merge_ents ents ids) as [ids' kept].
   destruct prev as [p|]; [|discriminate].
-  apply IH. pose proof (remaining_decr cs f next (step_key _ _ _ _ _ St) M). lia.
+  apply IH. pose proof (remaining_decr cs f next (step_key _ _ _ _ St) M). lia.
 Qed.
 
 (* once the walk has an answer, more fuel does not change it *)
-Theorem walk_fuel_mono fuel k f flen c cs ids xs root next :
-  walk fuel f flen c cs ids xs root next <> WFuel ->
-  walk (fuel + k) f flen c cs ids xs root next = walk fuel f flen c cs ids xs root next.
+Theorem walk_fuel_mono fuel k f flen cs ids xs root next :
+  walk fuel f flen cs ids xs root next <> WFuel ->
+  walk (fuel + k) f flen cs ids xs root next = walk fuel f flen cs ids xs root next.
 Proof.
-  revert c cs ids xs root next. induction fuel as [|n IH]; intros c cs ids xs root next; [cbn [walk]; congruence|].
+  revert cs ids xs root next. induction fuel as [|n IH]; intros cs ids xs root next; [cbn [walk]; congruence|].
   cbn [walk Nat.add]. destruct (mem_N next cs); [reflexivity|].
   destruct (negb (next <? flen)%N); [reflexivity|].
-  destruct (step f flen c next) as [[c2 [[ents rt] prev]]|]; [|reflexivity].
+  destruct (step f flen next) as [[[ents rt] prev]|]; [|reflexivity].
   destruct (match root with Some _ => root | None => rt end); [|reflexivity].
   destruct (merge_ents ents ids) as [ids' kept].
   destruct prev as [p|]; [|reflexivity]. apply IH.
@@ -281,7 +281,7 @@ Proof.
   unfold load, load_fuel. destruct (negb (p_magic p)); [discriminate|].
   destruct (p_startxref p) as [sx|]; [|discriminate].
   destruct (negb (sx <? p_flen p)%N); [discriminate|].
-  destruct (walk _ _ _ _ _ _ _ _ _) eqn:W.
+  destruct (walk _ _ _ _ _ _ _ _) eqn:W.
   - discriminate.
   - exfalso. revert W. apply walk_no_fuel. pose proof (remaining_le [] (p_file p)). unfold len. lia.
   - destruct (parse_objects _ _ _ _); [discriminate|]. destruct root; discriminate.
@@ -299,21 +299,21 @@ Proof.
 Qed.
 
 (* ---------- cycle / bounds rejection ---------- *)
-(* the offsets the loop visits when started at [o] with context [c], and the /Prev it is left with *)
-Inductive follows (f : file) (flen : N) : ctx -> N -> list N -> option N -> Prop :=
-| F_last c o c' ents rt pv :
-    (o <? flen)%N = true -> step f flen c o = Some (c', (ents, rt, pv)) -> follows f flen c o [o] pv
-| F_cons c o c' ents rt o' l pv :
-    (o <? flen)%N = true -> step f flen c o = Some (c', (ents, rt, Some o')) ->
-    follows f flen c' o' l pv -> follows f flen c o (o :: l) pv.
+(* the offsets the loop visits when started at [o], and the /Prev it is left with *)
+Inductive follows (f : file) (flen : N) : N -> list N -> option N -> Prop :=
+| F_last o ents rt pv :
+    (o <? flen)%N = true -> step f flen o = Some (ents, rt, pv) -> follows f flen o [o] pv
+| F_cons o ents rt o' l pv :
+    (o <? flen)%N = true -> step f flen o = Some (ents, rt, Some o') ->
+    follows f flen o' l pv -> follows f flen o (o :: l) pv.
 
-Lemma walk_dangling f flen c o l t :
-  follows f flen c o l (Some t) ->
+Lemma walk_dangling f flen o l t :
+  follows f flen o l (Some t) ->
   forall fuel cs ids xs root, In t l \/ In t cs \/ (flen <= t)%N ->
-  forall c' xr r, walk fuel f flen c cs ids xs root o <> WOk c' xr r.
+  forall xr r, walk fuel f flen cs ids xs root o <> WOk xr r.
 Proof.
-  intros F. remember (Some t) as pv eqn:Epv. induction F as [c o c1 ents rt pv Hb St | c o c1 ents rt o' l pv Hb St F IH];
-    intros fuel cs ids xs root Ht c' xr r; subst pv.
+  intros F. remember (Some t) as pv eqn:Epv. induction F as [o ents rt pv Hb St | o ents rt o' l pv Hb St F IH];
+    intros fuel cs ids xs root Ht xr r; subst pv.
   - destruct fuel as [|n]; cbn [walk]; [discriminate|].
     destruct (mem_N o cs); [discriminate|]. rewrite Hb. cbn [negb]. rewrite St.
     destruct (match root with Some _ => root | None => rt end); [|discriminate].
@@ -332,18 +332,18 @@ Proof.
 Qed.
 
 Definition prev_revisits (p : pdf) : Prop :=
-  exists sx l t, p_startxref p = Some sx /\ follows (p_file p) (p_flen p) [] sx l (Some t) /\ In t l.
+  exists sx l t, p_startxref p = Some sx /\ follows (p_file p) (p_flen p) sx l (Some t) /\ In t l.
 Definition prev_out_of_bounds (p : pdf) : Prop :=
-  exists sx l t, p_startxref p = Some sx /\ follows (p_file p) (p_flen p) [] sx l (Some t) /\ (p_flen p <= t)%N.
+  exists sx l t, p_startxref p = Some sx /\ follows (p_file p) (p_flen p) sx l (Some t) /\ (p_flen p <= t)%N.
 
 Lemma load_dangling p sx l t :
-  p_startxref p = Some sx -> follows (p_file p) (p_flen p) [] sx l (Some t) ->
+  p_startxref p = Some sx -> follows (p_file p) (p_flen p) sx l (Some t) ->
   In t l \/ (p_flen p <= t)%N -> load p = Rejected.
 Proof.
   intros Hs F Ht. pose proof (load_no_fuel p) as NF. unfold load, load_fuel in *. rewrite Hs in *.
   destruct (negb (p_magic p)); [reflexivity|].
   destruct (negb (sx <? p_flen p)%N); [reflexivity|].
-  destruct (walk _ _ _ _ _ _ _ _ _) eqn:W; [reflexivity | congruence |].
+  destruct (walk _ _ _ _ _ _ _ _) eqn:W; [reflexivity | congruence |].
   exfalso. revert W. eapply walk_dangling; [exact F|]. tauto.
 Qed.
 
@@ -359,26 +359,25 @@ Definition s_off (s : sect) : N := fst (fst s).
 Definition s_ents (s : sect) : list xent := snd (fst s).
 Definition s_root (s : sect) : option obj := snd s.
 
-(* the sections met from offset [o] on, newest first, ending in a section without /Prev;
-   [c'] is the context after the walk (xref-stream objects get registered on the way) *)
-Inductive chain (f : file) (flen : N) : ctx -> N -> list sect -> ctx -> Prop :=
-| C_last c o c' ents rt :
-    (o <? flen)%N = true -> step f flen c o = Some (c', (ents, rt, None)) -> chain f flen c o [(o, ents, rt)] c'
-| C_cons c o c' ents rt o' l c'' :
-    (o <? flen)%N = true -> step f flen c o = Some (c', (ents, rt, Some o')) ->
-    chain f flen c' o' l c'' -> chain f flen c o ((o, ents, rt) :: l) c''.
+(* the sections met from offset [o] on, newest first, ending in a section without /Prev *)
+Inductive chain (f : file) (flen : N) : N -> list sect -> Prop :=
+| C_last o ents rt :
+    (o <? flen)%N = true -> step f flen o = Some (ents, rt, None) -> chain f flen o [(o, ents, rt)]
+| C_cons o ents rt o' l :
+    (o <? flen)%N = true -> step f flen o = Some (ents, rt, Some o') ->
+    chain f flen o' l -> chain f flen o ((o, ents, rt) :: l).
 
 Definition all_ents (S : list sect) : list xent := concat (map s_ents S).
 
-Lemma walk_chain f flen c o S c' :
-  chain f flen c o S c' ->
+Lemma walk_chain f flen o S :
+  chain f flen o S ->
   forall fuel cs ids xs root r,
     NoDup (map s_off S) -> (forall x, In x (map s_off S) -> ~ In x cs) ->
     (match root with Some r0 => Some r0 | None => match S with s :: _ => s_root s | [] => None end end) = Some r ->
     List.length S <= fuel ->
-    walk fuel f flen c cs ids xs root o = WOk c' (xs ++ snd (merge_ents (all_ents S) ids)) r.
+    walk fuel f flen cs ids xs root o = WOk (xs ++ snd (merge_ents (all_ents S) ids)) r.
 Proof.
-  intros Ch. induction Ch as [c o c1 ents rt Hb St | c o c1 ents rt o' l c2 Hb St Ch IH];
+  intros Ch. induction Ch as [o ents rt Hb St | o ents rt o' l Hb St Ch IH];
     intros fuel cs ids xs root r ND Dis Hr Hf.
   - destruct fuel as [|n]; [cbn in Hf; lia|]. cbn [walk].
     replace (mem_N o cs) with false.
@@ -407,11 +406,11 @@ Proof.
     + cbn [List.length] in Hf. lia.
 Qed.
 
-Lemma chain_length f flen c o S c' : chain f flen c o S c' -> NoDup (map s_off S) -> List.length S <= List.length f.
+Lemma chain_length f flen o S : chain f flen o S -> NoDup (map s_off S) -> List.length S <= List.length f.
 Proof.
   intros Ch ND.
   assert (In_keys : forall x, In x (map s_off S) -> In x (keys f)).
-  { clear ND. induction Ch as [c o c1 ents rt Hb St | c o c1 ents rt o' l c2 Hb St Ch IH]; intros x; cbn [map In s_off fst].
+  { clear ND. induction Ch as [o ents rt Hb St | o ents rt o' l Hb St Ch IH]; intros x; cbn [map In s_off fst].
     - intros [<-|[]]. eapply step_key, St.
     - intros [<-|H]; [eapply step_key, St | apply IH, H]. }
   rewrite <- (map_length s_off). etransitivity; [apply NoDup_incl_length; [exact ND | exact In_keys]|].
